@@ -15,7 +15,7 @@ from ..loader import AnalysisError, FuncInfo, norm, primitives
 
 USER_FCNS = ("quantity", "transform")
 # calls that cannot raise on a validated numbers.Real / validated hashable key
-INFALLIBLE_CALLS = {"math.isnan", "math.isinf", "isinstance", "float", "np.isnan", "numpy.isnan", "len", "tuple",
+INFALLIBLE_CALLS = {"math.isnan", "math.isinf", "math.isfinite", "isinstance", "float", "np.isnan", "numpy.isnan", "len", "tuple",
                     "self._checkForCrossReferences"}
 SINGLE_PATH = ("Bin", "SparselyBin", "CentrallyBin", "IrregularlyBin", "Categorize", "Select")
 MUTATOR_METHODS = {"append", "extend", "insert", "pop", "remove", "clear", "update", "setdefault", "add", "discard",
